@@ -123,6 +123,24 @@ Extensions used by unit Hfile (C16: the physical I/O layer; each one only takes 
   * `sizeof(T)` of a typedef'd struct and `sizeof(global array)` are compiled against the headers and printed (like enum constants);
   * `x++` / `x--` on a SIGNED type narrower than int wraps like every conversion to such a type (was left unconverted).
 
+Extensions used by unit Hfile2 (the access-record functions of hfile.c; each one only takes effect when its option is given):
+  * opts['call_specs'][f] = {ret, log, out, set}: an ASSUMED call with a written CONTRACT (trusted base; printed in the doc comment).  `ret`: the
+    result is the entry parameter of this name (the same at every call).  `log`: code - the row `[code, values of the integer arguments]` is
+    appended to the call log `calls : List (List Int)` (an entry parameter: the log so far).  `out`: {k: field} - unless the result is FAIL (-1)
+    the callee stores the state field `field` through its k-th argument: `&x` (x an integer local) -> x := field; NULL -> nothing; an
+    integer-pointer PARAMETER p of this function -> p[0] := field unless `p_null` (checked: p has a cell).  `set`: [[field, term]] - unless the
+    result is FAIL, field := term (Lean text; `$k` = the value of argument k, `s.<field>` = a state field before the call).  All effects of one
+    call refer to the state before the statement; `&&` is a sequence point: the right operand reads the scalars stored by the left one with
+    their new value, and its own stores (also into the log / an output array) are conditional on the left operand.
+  * opts['unmodelled_indirect_calls']: a call through a function pointer (`(*p->funcs->f)(...)`) is outside the translated text: reaching it is
+    recorded in `ub` (like opts['unmodelled_cases']), its value is 0.
+  * opts['check_object_null']: `p->m` with `p` an object local (opts['object_calls']) requires `p_null = false` (recorded in `ub` otherwise).
+  * opts['share_fields']: in a call of a translated function of the unit, the callee's entry fields that do not belong to one of its C parameters
+    (members of its object locals, contract fields of assumed calls, the call log) are the caller's fields of the same name; checked: every
+    object local of the callee is bound to the same calls as the caller's object of that name and is resolved from the id the caller hands over
+    (callee `o = f(param_i)`, caller `o = f(v)` and argument i is `v`) or from the same member of a shared object.  A struct PARAMETER of the
+    callee may be an object local of the caller.
+  * `sizeof(a)` of a local integer array `a`: its declared size in bytes.
 Extensions used by unit Repack (hrepack's option parser; each one only takes effect when its option is given):
   * `strcmp(a, b)` / `strncmp(a, b, n)` -> `(strcmpC A B).getD 0` / `(strncmpC n A B).getD 0` with the check `….isSome` (`strcmpC`, `strncmpC` are
     emitted into the unit: cells compared as unsigned chars up to the first difference / NUL / n cells, result -1 / 0 / 1 (C fixes only the
@@ -313,6 +331,9 @@ class Fn:
         self.notes = list(opts.get("_frag_notes", []))
         self.objects = {}        # struct-pointer locals bound to the result of opts['object_calls'] functions: an object outside the function
         self.oracle_sites = {}   # assumed call answered from a table: function -> id of its (single) call site
+        self.call_specs = opts.get("call_specs", {})   # assumed calls with a written CONTRACT (result, logged arguments, stores): see call_spec
+        self.subst = {}          # scalar field -> term: its value after the pending effects of the left operand of `&&` (a sequence point)
+        self.object_keys = {}    # object local -> the id expression its object calls are handed: ('var', name) | ('mem', object, [path])
         self.rowptr = {}         # pointer locals to a row struct (opts['row_structs']): name -> (member, cells per element, bytes per cell)
 
     # ---------------------------------------------------------------- fields
@@ -812,6 +833,36 @@ class Fn:
             fail("%s: member access %s" % (self.name, fld))
         fail("%s: unsupported lvalue %s" % (self.name, k))
 
+    def objchk(self, n):
+        """opts['check_object_null']: `p->m` with `p` an object local (the result of opts['object_calls'] functions) requires p != NULL"""
+        if not self.opts.get("check_object_null"):
+            return []
+        n = self.skip(n)
+        if n.get("kind") != "MemberExpr":
+            return []
+        p_, _ = self.member_chain(n)
+        if p_ is None or p_ not in self.objects:
+            return []
+        return ["s.%s = false" % self.owned(p_, self.boolf, "%s_null" % p_)]
+
+    def object_key(self, n):
+        """the id expression handed to the first opts['object_calls'] call inside the binding expression of an object local"""
+        oc = set(self.opts.get("object_calls", []))
+        if n.get("kind") == "CallExpr" and self.skip(n["inner"][0]).get("referencedDecl", {}).get("name") in oc and len(n["inner"]) > 1:
+            a = self.skip(n["inner"][1])
+            if a.get("kind") == "DeclRefExpr":
+                return ("var", a["referencedDecl"]["name"])
+            if a.get("kind") == "MemberExpr":
+                p_, path_ = self.member_chain(a)
+                if p_ is not None:
+                    return ("mem", p_, tuple(path_))
+            return None
+        for c_ in n.get("inner", []):
+            r_ = self.object_key(c_)
+            if r_ is not None:
+                return r_
+        return None
+
     def nullf(self, nm):
         """Bool state field: pointer local `nm` (one that is assigned or initialised with NULL somewhere) is NULL"""
         f = lname(nm) + "_null"
@@ -980,12 +1031,14 @@ class Fn:
             if nm in self.ptr:
                 fail("%s: pointer %s used as an integer" % (self.name, nm))
             if lname(nm) in self.scalars:
+                if lname(nm) in self.subst:
+                    return self.subst[lname(nm)], [], []
                 return "s.%s" % lname(nm), [], []
             fail("%s: read of %s (%s) outside the subset" % (self.name, nm, d.get("kind")))
         if k in ("ArraySubscriptExpr", "MemberExpr") or (k == "UnaryOperator" and n.get("opcode") == "*"):
             lv = self.lvalue(n)
             if lv[0] == "scalar":
-                return "s.%s" % lv[1], [], []
+                return "s.%s" % lv[1], self.objchk(n), []
             return self.read(lv[1], lv[2]), lv[3], lv[4]
         if k == "UnaryOperator":
             op = n["opcode"]
@@ -1133,6 +1186,15 @@ class Fn:
             nm = self.opts.get("call_map", {}).get(nm, nm)
             if nm in self.opts.get("_fns", {}):
                 return self.call_translated(n, nm)
+            if nm in self.call_specs:
+                return self.call_spec(n, nm)
+            if nm is None and self.opts.get("unmodelled_indirect_calls") and callee.get("kind") != "DeclRefExpr":
+                # a call through a function pointer (`(*p->funcs->f)(…)`): its target is outside the translated text; reaching it is recorded
+                # in `ub` (like a switch group of opts['unmodelled_cases']) and the value is 0
+                note = "a call through a function pointer is outside the translated subset (opts['unmodelled_indirect_calls']): reaching one is recorded as `ub`"
+                if note not in self.notes:
+                    self.notes.append(note)
+                return "0", ["False"], []
             if nm in self.opts.get("pure_calls", []):
                 if len(n["inner"]) != 2:
                     fail("%s: pure call %s must have one argument" % (self.name, nm))
@@ -1281,6 +1343,12 @@ class Fn:
             fail("%s: call of %s inside an expression" % (self.name, nm))
         if k == "UnaryExprOrTypeTraitExpr" and n.get("name") == "sizeof":
             at = n.get("argType", {}).get("qualType")
+            if not at and n.get("inner"):
+                # sizeof(expression) of a LOCAL array of integers: its declared size (globals: compiled and printed, below)
+                se = self.skip(n["inner"][0])
+                m_ = re.match(r"^(.*)\[(\d+)\]$", base_type(qt(se)))
+                if m_ and int_width(m_.group(1)) is not None and se.get("kind") == "DeclRefExpr" and lname(se["referencedDecl"]["name"]) in self.local_regions:
+                    return str(int(m_.group(2)) * (int_width(m_.group(1))[1] // 8)), [], []
             if self.opts.get("libc_builtins"):
                 # sizeof of an expression (its type), of an integer array type `T[N]`, of a row struct (opts['row_structs'])
                 if not at and n.get("inner"):
@@ -1304,6 +1372,76 @@ class Fn:
                 fail("%s: sizeof of %s" % (self.name, at))
             return str(w[1] // 8), [], []
         fail("%s: unsupported expression %s" % (self.name, k))
+
+    def use_calls(self):
+        """the call log `calls : List (List Int)` (an entry parameter: the log so far)"""
+        if "calls" not in self.rowsets:
+            self.rowsets.append("calls")
+            self.owner = None
+            self.add_entry("calls", "List (List Int)")
+
+    def call_spec(self, n, nm):
+        """an ASSUMED call with a written contract, opts['call_specs'][f] = {ret, log, out, set} (trusted base; printed in the doc comment):
+             ret: the result is the entry parameter of this name (the same at every call);
+             log: code - the row [code, values of the integer arguments in order] is appended to the call log `calls`;
+             out: {k: field} - when the result is not FAIL (-1) the callee stores the state field `field` (an entry parameter, possibly
+                  changed by `set` clauses since) through its k-th argument: `&x` (x an integer local): x := field; NULL: nothing;
+                  an integer-pointer PARAMETER p of this function: p[0] := field unless p is NULL (`p_null`);
+             set: [[field, term]] - when the result is not FAIL the state field is set to the term (Lean text; `$k` = value of argument k,
+                  `s.<field>` = a state field before the call)."""
+        spec = self.call_specs[nm]
+        args = n["inner"][1:]
+        old_owner, self.owner = self.owner, None
+        try:
+            retf = self.scalar(spec["ret"], entry=True)
+            ok = "(s.%s ≠ (- 1))" % retf
+            vals, checks, ints = {}, [], []
+            for k_, a in enumerate(args, 1):
+                if ptr_elem(qt(a)) is None and int_width(qt(a)) is not None:
+                    t, c, e = self.rvalue(a)
+                    if e:
+                        fail("%s: side effect in an argument of %s" % (self.name, nm))
+                    vals[k_] = t
+                    checks += c
+                    ints.append(t)
+            effs, doc = [], ["returns the entry parameter `%s`" % retf]
+            if "log" in spec:
+                self.use_calls()
+                effs.append(Eff(("whole", "calls"), "(s.calls ++ [[%s]])" % ", ".join([str(int(spec["log"]))] + ints), "calls"))
+                doc.append("appends `[%d, integer arguments]` to `calls`" % int(spec["log"]))
+            for k_, fld in sorted((int(a_), b_) for a_, b_ in spec.get("out", {}).items()):
+                f_ = self.scalar(fld, entry=True)
+                a = args[k_ - 1]
+                doc.append("unless it FAILs (-1) stores `%s` through argument %d" % (f_, k_))
+                if self.is_null(a):
+                    continue
+                sa = self.skip(a)
+                if sa.get("kind") == "UnaryOperator" and sa.get("opcode") == "&":
+                    lv = self.lvalue(sa["inner"][0])
+                    if lv[0] != "scalar" or lv[2] == "ptr":
+                        fail("%s: output argument %d of %s is not `&integer variable`" % (self.name, k_, nm))
+                    effs.append(Eff(lv, "(if %s then s.%s else s.%s)" % (ok, f_, lv[1]), lv[1]))
+                elif sa.get("kind") == "DeclRefExpr" and sa["referencedDecl"]["name"] in self.ptr_is_param_region and sa["referencedDecl"]["name"] in self.plist:
+                    pn = sa["referencedDecl"]["name"]
+                    reg = self.owned(pn, self.region, pn)
+                    nf = self.owned(pn, self.boolf, "%s_null" % pn)
+                    checks.append("s.%s = true ∨ s.%s = (- 1) ∨ 0 < s.%s.length" % (nf, retf, reg))
+                    effs.append(Eff(("whole", reg), "(if %s ∧ s.%s = false then s.%s.set 0 (s.%s) else s.%s)" % (ok, nf, reg, f_, reg), reg))
+                else:
+                    fail("%s: output argument %d of %s is neither `&variable`, NULL nor a pointer parameter" % (self.name, k_, nm))
+            for fld, term in spec.get("set", []):
+                f_ = self.scalar(fld, entry=True)
+                for m_ in re.findall(r"s\.(\w+)", term):
+                    self.scalar(m_, entry=True)
+                t_ = re.sub(r"\$(\d+)", lambda m_: "(%s)" % vals[int(m_.group(1))], term)
+                effs.append(Eff(("scalar", f_, None), "(if %s then %s else s.%s)" % (ok, t_, f_), f_))
+                doc.append("unless it FAILs sets `%s := %s`" % (f_, term))
+            note = "call of `%s` is ASSUMED (contract opts['call_specs']): %s" % (nm, "; ".join(doc))
+            if note not in self.notes:
+                self.notes.append(note)
+            return "s.%s" % retf, checks, effs
+        finally:
+            self.owner = old_owner
 
     def const(self, name):
         v = self.opts.get("consts", {}).get(name)
@@ -1381,16 +1519,23 @@ class Fn:
             if op == "&&":
                 ta, ca, ea = self.cond(a)
                 npre = len(self.pre_lines)
+                # `&&` is a sequence point: the right operand reads the scalars the left operand stores into (the stores of an assumed call
+                # with a contract, opts['call_specs']) with their NEW value
+                saved_subst = self.subst
+                if self.call_specs and ea:
+                    self.subst = dict(self.subst, **{x.lv[1]: x.term for x in ea if x.lv[0] == "scalar"})
                 self.cond_ctx = getattr(self, "cond_ctx", 0) + 1
                 try:
                     tb, cb, eb = self.cond(b)
                 finally:
                     self.cond_ctx -= 1
+                    self.subst = saved_subst
                 if len(self.pre_lines) != npre:
                     fail("%s: call of a translated function on the right of &&" % self.name)
                 if eb:
                     # the right operand is evaluated only when the left one is true: its (scalar) stores become conditional ones
-                    if ea or any(x.lv[0] != "scalar" for x in eb):
+                    # (with opts['call_specs'] also the stores of an assumed call into whole fields: the call log, an output array)
+                    if ea or any(x.lv[0] != "scalar" and not (self.call_specs and x.lv[0] == "whole") for x in eb):
                         fail("%s: side effect on the right of &&" % self.name)
                     eb = [Eff(x.lv, "(if %s then %s else s.%s)" % (ta, x.term, x.lv[1]), x.var) for x in eb]
                 return "(%s ∧ %s)" % (ta, tb), ca + ["¬%s ∨ (%s)" % (ta, x) for x in cb], ea + eb
@@ -1557,7 +1702,7 @@ class Fn:
                 bound.append((lv, "v%d" % k))
             k += 1
         for i, e in enumerate(effs):
-            ety = "List Int" if e.lv[0] == "whole" else "Int"
+            ety = ("List (List Int)" if e.lv[1] in self.rowsets else "List Int") if e.lv[0] == "whole" else "Int"
             out.append("%slet e%d : %s := %s" % (ind, i, ety, e.term))
             if e.lv[0] == "elem":
                 out.append("%slet ei%d : Int := %s" % (ind, i, e.lv[2]))
@@ -1681,7 +1826,7 @@ class Fn:
             v, c2 = self.binop(op, self.conv(cur, lty, cty), t, cty)
             v = self.conv(v, cty, lty)
             le = lv[4] if lv[0] == "elem" else []
-            return self.with_effects(c + c2 + (lv[3] if lv[0] == "elem" else []), [(lv, v)], e + le, ind)
+            return self.with_effects(c + c2 + self.objchk(lhs) + (lv[3] if lv[0] == "elem" else []), [(lv, v)], e + le, ind)
         if k == "UnaryOperator" and n.get("opcode") in ("++", "--"):
             sub = n["inner"][0]
             ssub = self.skip(sub)
@@ -2065,7 +2210,7 @@ class Fn:
         t, c, e = self.rvalue(rhs)
         lv = self.lvalue(lhs)
         le = lv[4] if lv[0] == "elem" else []
-        return self.with_effects(c + (lv[3] if lv[0] == "elem" else []), [(lv, t)], e + le, ind)
+        return self.with_effects(c + self.objchk(lhs) + (lv[3] if lv[0] == "elem" else []), [(lv, t)], e + le, ind)
 
     def callee_name(self, call):
         return self.skip(call["inner"][0]).get("referencedDecl", {}).get("name")
@@ -2205,7 +2350,7 @@ class Fn:
         nm = callee.get("referencedDecl", {}).get("name")
         if nm in self.ignore or nm in ("free", "HDfree"):
             return []
-        if nm in self.opts.get("io", {}) or nm in self.opts.get("assume_calls", {}) or nm in self.opts.get("_fns", {}):
+        if nm in self.opts.get("io", {}) or nm in self.opts.get("assume_calls", {}) or nm in self.opts.get("_fns", {}) or nm in self.call_specs:
             t_, c_, e_ = self.rvalue(n)
             return self.with_effects(c_, [], e_, ind)
         if nm in ("memset", "__builtin_memset", "HDmemset") and self.cursor_target(n["inner"][1])[0] is not None and self.cursor_target(n["inner"][1])[1] is None:
@@ -2432,8 +2577,47 @@ class Fn:
                 amap[f] = "s.%s" % f
                 if f != "io_res":
                     back.append((f, ("scalar" if f == "io_cnt" else "whole", f)))
+            elif self.opts.get("share_fields"):
+                # opts['share_fields']: the callee's entry fields that do not belong to one of its C parameters (members of its object locals,
+                # results / state of assumed calls, the call log) are the caller's fields of the same name (checked below: same objects)
+                own_ = [o for (n_, t_, o) in callee.entry if n_ == f][0]
+                mine_entry = [n_ for (n_, t_, o) in self.entry]
+                if ty == "Int":
+                    if f in self.scalars and f not in mine_entry:
+                        fail("%s: shared field %s of %s is a local of the caller" % (self.name, f, nm))
+                    self.owned(own_ if own_ in self.objects else None, self.scalar, f, entry=True)
+                    amap[f] = "s.%s" % f
+                    back.append((f, ("scalar", f)))
+                elif ty == "Bool":
+                    self.owned(own_ if own_ in self.objects else None, self.boolf, f)
+                    amap[f] = "s.%s" % f
+                elif ty == "List (List Int)" and f == "calls":
+                    self.use_calls()
+                    amap[f] = "s.calls"
+                    back.append((f, ("whole", "calls")))
+                else:
+                    fail("%s: shared field %s : %s of %s" % (self.name, f, ty, nm))
             else:
                 fail("%s: entry field %s of %s has no counterpart in the caller" % (self.name, f, nm))
+        if self.opts.get("share_fields"):
+            # the object locals of the callee must be the caller's objects of the same name: bound to the same calls, with the id the caller
+            # hands over (callee: `o = f(param_i)`, caller: `o = f(v)` and argument i is `v`) or with the same member of a shared object
+            for o_, calls_ in getattr(callee, "objects", {}).items():
+                if self.objects.get(o_) != calls_:
+                    fail("%s: object %s of %s is not an object of the caller" % (self.name, o_, nm))
+                ck = callee.object_key(callee.object_keys[o_])
+                mk = self.object_key(self.object_keys[o_])
+                same = False
+                if ck is not None and ck[0] == "var" and ck[1] in callee.plist:
+                    a_ = self.skip(args[callee.plist.index(ck[1])])
+                    same = mk is not None and mk[0] == "var" and a_.get("kind") == "DeclRefExpr" and a_["referencedDecl"]["name"] == mk[1]
+                elif ck is not None and ck[0] == "mem":
+                    same = mk == ck
+                if not same:
+                    fail("%s: object %s of %s is not resolved from the id the caller resolved its %s from" % (self.name, o_, nm, o_))
+                note = "the object `%s` of the callee `%s` is this function's `%s` (both are resolved from the same id)" % (o_, nm, o_)
+                if note not in self.notes:
+                    self.notes.append(note)
         order = [f for f, _ in callee.ordered]
         k = self.ncalls
         self.ncalls += 1
@@ -2859,6 +3043,7 @@ class Fn:
                         fail("%s: struct pointer %s is bound to two different objects" % (self.name, nm))
                     self.objects[nm] = calls
                     self.structs.add(nm)
+                    self.object_keys.setdefault(nm, r)
                     note = "struct pointer `%s` is the object returned by %s (entry fields `%s_*`; `%s_null` = the result is NULL), the call(s) leave the modelled state unchanged" % (nm, ", ".join("`%s`" % c for c in calls), nm, nm)
                     if note not in self.notes:
                         self.notes.append(note)
